@@ -35,10 +35,20 @@ def scan_unordered():
     found = []
     for fn in sorted(glob.glob(chconf.REPO + "/pDESy/model/*.py")):
         tree = ast.parse(open(fn).read())
+        # sets the harness controls: sets of task / component objects (their __hash__ is fixed by the harness), recognised as a
+        # set(...) call that is directly assigned to a variable named after tasks or components; any other set is reported as such
+        controlled = set()
+        for node in ast.walk(tree):
+            if isinstance(node, ast.Assign) and isinstance(node.value, ast.Call) and isinstance(node.value.func, ast.Name) and node.value.func.id == "set":
+                names = [t.id for t in node.targets if isinstance(t, ast.Name)]
+                if names and all(("task" in n or "component" in n) for n in names):
+                    controlled.add(id(node.value))
         for node in ast.walk(tree):
             kind = None
             if isinstance(node, ast.Call) and isinstance(node.func, ast.Name) and node.func.id in ("set", "frozenset", "id", "hash"):
                 kind = node.func.id + "()"
+                if node.func.id == "set" and id(node) not in controlled:
+                    kind = "set-of-other-objects"
             elif isinstance(node, (ast.Set, ast.SetComp)):
                 kind = "set-display"
             elif isinstance(node, ast.FunctionDef) and node.name == "__hash__":
@@ -166,7 +176,7 @@ def scan(p, ctx):
     allowed_files = ("base_workflow.py", "base_product.py", "base_project.py")
     for f in found:
         fn, line, kind = f.split(":")
-        if kind in ("set-display", "__hash__", "id()", "hash()", "set-algebra") or fn not in allowed_files:
+        if kind in ("set-display", "__hash__", "id()", "hash()", "set-algebra", "set-of-other-objects") or fn not in allowed_files:
             ctx.fail("C09:scan:uncontrolled-unordered-construct:%s:%s" % (fn, kind))
     ctx.cover("scan:ok")
     ctx.sig = ("scan", len(found))
